@@ -1,5 +1,7 @@
 SPECIFICATION Spec
 CONSTANT MaxN = 3
+CONSTANT Extra = {0, 1, 2}
+CONSTANT ZeroTracked = FALSE
 CONSTANT MaxQ = 2
 CONSTANT W0 = 100
 CONSTANT TickW = {80}
